@@ -136,7 +136,8 @@ def gen_driver(facts, cfg, include_source=True):
     w('#include <type_traits>\n#include <memory>\n#include <set>\n#include <deque>\n#include <sstream>')
     w(f'using Shell = {shell_t}; using Comp = {comp_t};')
     w('static verif::Hits H;')
-    w('static const std::vector<std::string> CLIENTS = {"A", "B", "C"};')
+    # client identifiers related by prefix and by letter case
+    w('static const std::vector<std::string> CLIENTS = {"A", "AB", "a"};')
     # ---- environment
     w('struct Env {')
     w('  dzn::locator user_loc; dzn::pump user_pump; dzn::runtime user_rt; verif::Service svc;')
@@ -289,7 +290,7 @@ def gen_driver(facts, cfg, include_source=True):
             w(f'    {fname}(sh_, comp_, pump_, "", "{pc.tag(ev)}");')
     if mcport:
         w(f'    {{ const Shell& csh_ = sh_; auto ids_ = csh_.Get{mcport.p.cap}ClientIdentifiers(); std::string j_; for (auto& x_ : ids_) j_ += x_ + ",";')
-        w(f'      verif::emit("C04", "client-identifiers", "{mcport.p.name}", ids_.size() == {ncl} && ids_[0] == "A" && (ids_.size() < 2 || ids_[1] == "B"), j_); }}')
+        w(f'      verif::emit("C04", "client-identifiers", "{mcport.p.name}", ids_.size() == {ncl} && ids_[0] == "A" && (ids_.size() < 2 || ids_[1] == "AB"), j_); }}')
     w('    verif::emit("C01", "no-residue", "pump", pump_.q.empty(), "queue=" + std::to_string(pump_.q.size()));')
     w('  }')
     # C09
@@ -465,7 +466,7 @@ def gen_c04(facts, cfg, mcport, events):
     for oev in outs:
         w('      { H.reset(); ' + args_decl(oev) + f' comp_.{p.name}.out.{oev.name}({args_call(oev)});')
         exp = ' && '.join([f'H.args.size() == {len(oev.formals)}'] + [f'H.args[{i}] == {IN_VALUES[i]}' for i in range(len(oev.formals))])
-        w(f'        verif::emit("C04", "out-event-to-holder", "{oev.name}", H.log.size() == 1 && H.log[0] == "{mcport.tag(oev)}@B" && {exp}, "hits=" + H.joined()); }}')
+        w(f'        verif::emit("C04", "out-event-to-holder", "{oev.name}", H.log.size() == 1 && H.log[0] == "{mcport.tag(oev)}@AB" && {exp}, "hits=" + H.joined()); }}')
     w('    }')
     w('  }')
     return out
